@@ -1412,7 +1412,7 @@ func exchangeServiceInfoRound(ctx context.Context, transport Transport, mtu uint
 	maxRead := mtu
 	for {
 		chunk, err := r.ReadChunk(maxRead)
-		if errors.Is(err, io.EOF) {
+		if err == io.EOF { //nolint:errorlint // only the bare error is the end of the stream; a module's own error may wrap io.EOF
 			break
 		}
 		if errors.Is(err, serviceinfo.ErrSizeTooSmall) {
